@@ -42,10 +42,10 @@ INVARIANT SrcSameCalls
 logging.getLogger().addHandler(logging.NullHandler())   # ppci warns through logging; keep the check's output clean
 IR_INT = {"i8": 1, "u8": 1, "i16": 2, "u16": 2, "i32": 4, "u32": 4, "i64": 8, "u64": 8}
 WORKERS = 8
-QUICK_PROBES = 400            # sampled probes in the quick tier (plus the sentinels); thorough runs all of them
+QUICK_PROBES = 300            # sampled probes in the quick tier (plus the sentinels); thorough runs all of them
 QUICK_PROBE_VECTORS = 4
 QUICK_PROGRAMS = 40
-THOROUGH_PROBE_VECTORS = 16
+THOROUGH_PROBE_VECTORS = 8
 # probes that are always run with all their vectors: they decide which construct classes the random programs avoid
 SENTINELS = {"bin:<:c8,u8", "bin:>=:i16,u16", "bin:==:c8,u16", "unary:-:u8", "unary:~:u16", "unary:-:c8",
              "bin:<<:u32,i64", "type-of:<<:i32,u64", "type-of:>>:u16,u32",
@@ -656,7 +656,7 @@ def micro_cases():
 def model_check(ctx):
     cases = micro_cases()
     path = ctx.trace_file(cases, "micro.json")
-    nv = 13 if ctx.tier == "thorough" else 7
+    nv = 13 if ctx.tier == "thorough" else 5
     obsdir = tempfile.mkdtemp(prefix="mcobs_", dir=ctx.workdir)
     res = ctx.tlc("Src_MC", MC_CFG % nv, label="Src_MC laws + micro programs", env={"TRACE_FILE": path, "OBS_DIR": obsdir},
                   continue_=True, workers=WORKERS, coverage=False)
@@ -697,9 +697,9 @@ class Engine:
                  "type of their result, 10 compound assignments on locals and on array elements, ++/--, unary operators, casts, "
                  "conversion on return / initialisation / argument passing / store, ?:, p[i] and a[i] with every index type, literal "
                  "typing, switch on every type, struct layouts) on boundary-value argument vectors (quick: the sentinel probes + a seeded "
-                 "sample of 400 of the 4266 probes, 4 vectors each; thorough: all probes, 16 vectors each).  Stage 2, random programs of "
+                 "sample of 300 of the probes, 4 vectors each; thorough: all probes, 8 vectors each).  Stage 2, random programs of "
                  "harness/absprog.py (functions, loops, switch, arrays, structs, pointers into arrays, calls, external calls; 40 x 6 "
-                 "vectors quick, 300 x 8 thorough), generated without the construct classes whose probes failed in stage 1.  Every "
+                 "vectors quick, 200 x 8 thorough), generated without the construct classes whose probes failed in stage 1.  Every "
                  "(program, vector) is executed by TLC under Src.tla; those ending 'ok' are compared by TLC with the execution of ppci's "
                  "IR under IR.tla (Src_IR.tla).  distinct = distinct (program, vector) pairs compared; undefined / implementation-defined / "
                  "unspecified-order executions are skipped and counted in src_status")
@@ -735,7 +735,7 @@ class Engine:
         ctx.cov["construct_classes_avoided_in_random_programs"] = classes
 
         # ---- stage 2: random programs (without the construct classes whose probes failed in stage 1) ------
-        rnd = random_items(ctx, 300 if thorough else QUICK_PROGRAMS, 8 if thorough else 6, classes)
+        rnd = random_items(ctx, 200 if thorough else QUICK_PROGRAMS, 8 if thorough else 6, classes)
         self.stage(ctx, rnd, "random", stat, 250)
         ctx.cov["src_status"] = stat
         tot = sum(v for k, v in stat.items() if ":" not in k)
